@@ -1,12 +1,12 @@
 """Regenerate every Gen module from /repo's working tree."""
 import json, sys
-import os, tr_common, tr_variant, tr_preproc, tr_prefs, tr_tts, tr_highlight, tr_braille
+import os, tr_common, tr_variant, tr_preproc, tr_prefs, tr_tts, tr_highlight, tr_braille, tr_opdict
 MCDRIVE = os.path.join(tr_common.VERIF, "build", "target", "debug", "mcdrive")
 
 
 def main():
     report = {}
-    steps = [tr_variant.extract_variant, tr_variant.extract_ucd, tr_preproc.extract_preproc, lambda r: tr_prefs.extract_prefs(r, MCDRIVE), tr_tts.extract_tts, tr_highlight.extract_highlight, lambda r: tr_braille.extract_braille(r, MCDRIVE)]
+    steps = [tr_variant.extract_variant, tr_variant.extract_ucd, tr_preproc.extract_preproc, lambda r: tr_prefs.extract_prefs(r, MCDRIVE), tr_tts.extract_tts, tr_highlight.extract_highlight, lambda r: tr_braille.extract_braille(r, MCDRIVE), tr_opdict.extract_opdict]
     for s in steps:
         try:
             s(report)
